@@ -128,11 +128,11 @@ func init() {
 			}
 			reps := 1
 			if tier == core.Thorough {
-				reps = 6
+				reps = 12
 			}
 			nRandom := 3000
 			if tier == core.Thorough {
-				nRandom = 60000
+				nRandom = 600000
 			}
 			random := core.Section{Name: "generated-pages", N: nRandom, Run: func(c *core.Ctx, i int) {
 				g := newStmtGen(c.Rng, stmtGenOpts{MaxDepth: 1 + c.Rng.Intn(3), IfHeavy: i%2 == 0, LoopHeavy: i%3 == 0})
